@@ -136,6 +136,14 @@ fam("tlist_set", "list1", TLIST, FOR + "x[i] = i + 1")
 fam("tlist_opidx", "list1", TLIST, FOR + "x[i] += 3")
 fam("tlist_append", "list1b", TLIST, FOR + "x append= i")
 fam("tany_set", "list1b", ["x: anything = list(0 til @N)"], FOR + "x[i] = i + 1")
+# the mutated collection is also what the enclosing loop / branch tests: the tested value is a temporary and must
+# be gone by the time the body runs (`while (xs) pop xs` is the worklist idiom)
+fam("list_whilecond_pop", "list3", LIST, "while (x) pop x")
+fam("list_whilecond_len_pop", "list3", LIST, "while (len(x) > 0) pop x")
+fam("list_whilecond_set", "list1b", LIST + ["__i := 0"], "while (x and __i < @N) (x[__i] = 5; __i += 1)")
+fam("list_ifcond_set", "list1", LIST, FOR + "if (x) x[i] = i + 1")
+fam("list_ifelse_append", "list1b", LIST, FOR + "if (not x) null else x append= i")
+fam("list_andcond_append", "list1b", LIST, FOR + "(x and (x append= i))")
 fam("ctl_list_set", "list1", LIST + ["__c := null"], FOR + "(__c = x; x[i] = i + 1)", control=True)
 fam("ctl_list_opidx", "list1b", LIST + ["__c := null"], FOR + "(__c = x; x[i] += 3)", control=True)
 
@@ -192,6 +200,7 @@ fam("tdict_set_existing", "dict1", ["x: dict = {}", "for (i <- 0 til @N) x[i] = 
 fam("tdict_set_new", "dict1", ["x: dict = {}", "for (i <- 0 til @N) x[i] = i"], FOR + "x[@N + i] = i", kind="d", div=4)
 fam("ctl_dict_set", "dict1", DICT + ["__c := null"], FOR + "(__c = x; x[i] = i + 1)", kind="d", div=4, control=True)
 
+fam("dict_whilecond_set", "dict2", DICT + ["__i := 0"], "while (x and __i < @N) (x[__i] = 5; __i += 1)", kind="d", div=4)
 fam("dict_add_key", "dict2", DICT, FOR + "x |.= @N + i", kind="d", div=4)
 fam("dict_merge", "dict2", DICT, FOR + "x ||= {(@N + i): i}", kind="d", div=4)
 fam("dict_discard", "dict2", DICT, FOR + "x -.= i", kind="d", div=4)
@@ -261,7 +270,9 @@ def variants_for(f, tier):
           ("rel", ["__y := x", "__b := [x, x]", "__y = null", "__b = null"], 0, {"alias": 1}, f.loop)]
     if tier == "thorough":
         # the other order: the first-made reference lives on under another name, the loop mutates the later-made one
-        vs.append(("al1b", ["__o := x", "x = null", "x = __o"], 1, {"alias": 2}, f.loop))
+        # (typed targets `x: list` / `x: dict` reject null: park an empty collection of the declared kind instead)
+        park = "[]" if f.name.startswith("tlist_") else "{}" if f.name.startswith("tdict_") else "null"
+        vs.append(("al1b", ["__o := x", "x = " + park, "x = __o"], 1, {"alias": 2}, f.loop))
     if f.inner:
         stmt, d = f.inner
         vs.append(("inner", [stmt], 1, {"alias": 1, "inner": (d, 1)}, f.loop))
